@@ -8,7 +8,7 @@ MANIFEST_TEXT = ("Lean 4 theorems for ALL strings: the character-level transcrip
                  "pathIndicatesDirectory and concatPaths follow their tables; relativePath concatenated back onto the base "
                  "denotes the target whenever it reports a result; hasPrefix/hasSuffix/formatString equal their plain "
                  "definitions for every length.  Each run compiles the current path.cc/stringutility.hh and compares them with "
-                 "the model exhaustively on all strings over {/ . a b} up to length 8 (quick) / 10 (thorough), all pairs up to "
+                 "the model exhaustively on all strings over {/ . a b} up to length 9 (quick) / 11 (thorough), all pairs up to "
                  "length 4 / 5, random longer paths, and every format result length 0..2100, with an independent "
                  "component-resolver oracle deciding the property itself.")
 MANIFEST_NOTE = ("Trusted: Lean kernel (+propext/Classical.choice/Quot.sound), the hand-written model's fidelity (checked by the "
@@ -23,7 +23,7 @@ HARNESS = dict(
     libs=[],
     flags=["-Wno-format-security"],
 )
-RULE = ("cases: u = every string over the alphabet {'/', '.', 'a', 'b'} up to length 8 (quick) / 10 (thorough) through "
+RULE = ("cases: u = every string over the alphabet {'/', '.', 'a', 'b'} up to length 9 (quick) / 11 (thorough) through "
         "processPath, prettyPath (3 forms), pathIndicatesDirectory; b = every ordered pair of such strings up to length 4 / 5 "
         "through concatPaths, relativePath, hasPrefix, hasSuffix; ur/br = seeded random longer paths built from components "
         "{'', '.', '..', names, names with dots/spaces/other bytes} and related pairs; bl = strings of length 0-3, 998-1002, 2000 "
@@ -43,7 +43,7 @@ def _count(L):
 
 def batches(tier, seed):
     quick = tier == "quick"
-    LU = 8 if quick else 10
+    LU = 9 if quick else 11
     LB = 4 if quick else 5
     res = []
     # exhaustive unary enumeration, in chunks so memory stays flat
